@@ -8,6 +8,10 @@ coq/Analysis/Declarative.v. Correspondence per generated clause:
     the DECLARATIVE reading of the clause as written (brute force in Coq),
   * independently of Coq a Python brute-force oracle of the declarative reading decides
     whether a Go result violates the property.
+Streams added after seeding (notes/C04.md): a complete block of equalities in both
+orientations (eqfn_cases, judged as above) and a complete block of built-in predicate atoms
+with modes (builtin_cases): verdict and premise order vs coq/Analysis/BuiltinCheck.v
+(judge_b), evaluation judged by a Python property-level oracle on Go's output (classify_bi).
 """
 import glob
 import itertools
@@ -997,7 +1001,7 @@ def run(ck):
     for path in sorted(glob.glob(os.path.join(os.path.dirname(__file__), "..", "corpus", "C04", "*.json"))):
         cases.append(dict(json.load(open(path)), shape="corpus"))
     ncorpus = len(cases)
-    for _ in range(ck.n(800, 40000)):
+    for _ in range(ck.n(700, 40000)):
         cases.append(gen_case(rng, big=not ck.quick))
     nrandom = len(cases) - ncorpus
     # stream E: equalities between constants / variables / function applications in both
@@ -1063,7 +1067,7 @@ def run(ck):
             continue
         terms.append(xq_case(c, o) if bi else cq_case(c, o))
         idxs.append(i)
-    for i in rng.sample(bi_rejected, min(len(bi_rejected), 250)):
+    for i in rng.sample(bi_rejected, min(len(bi_rejected), 180)):
         terms.append(xq_case(cases[i], outs[i]["out"]))
         idxs.append(i)
     ck.log("go done: %s built-in stream: %s" % (stages, bstages))
@@ -1118,7 +1122,15 @@ def run(ck):
         "declarative comparison, not by a theorem",
         "evaluation data are small integers; functions fn:plus/minus/mult with two arguments",
         "known findings N61 (function application in a positive atom), N64 (let forward reference) and N65 (head function application "
-        "over a let-defined variable) are excluded by the generators and probed"])
+        "over a let-defined variable) are excluded by the generators and probed",
+        "built-in atoms: the model (coq/Analysis/BuiltinCheck.v, mode table go_table hand-copied from builtin.Predicates) judges the "
+        "verdict of analysis and the premise order only; C01's engine model has no built-ins, so evaluation of accepted clauses with "
+        "built-ins is judged by an independent property-level oracle in Python on Go's own output (no panic, no binding/mode error, "
+        "ground facts, result = declarative reading with each built-in read as its documented relation)",
+        "built-in stream: one built-in goal per clause over unary typed EDB columns; :time:* / :duration:* comparisons are exercised on "
+        "numbers only (verdict + 'no missing value' error, not their result); known findings N105-N108 are excluded by the generator and "
+        "probed; N24's trigger (bounds analysis on :match_entry over an empty-list-typed variable) is not reached by this harness - a "
+        "list column is never 'empty lists only' and such a panic would be reported as N24"])
 
 
 def replay(ck, path):
@@ -1164,8 +1176,18 @@ META = {
             "every placement of variables/wildcards in every premise order, compares analysis verdict and premise order of the real "
             "code with the model, evaluates accepted clauses with the real engine on a small EDB and compares the result with the "
             "declarative reading of the clause as written (brute force in Coq and independently in Python), under recover() with a "
-            "groundness scan of the store.",
+            "groundness scan of the store. Added after seeding: (a) a complete block of equalities between constant / variable / function "
+            "application / wildcard in both orientations with each variable's binder to the left, only further right, or absent; (b) "
+            "built-in predicate atoms with modes: theorems for EVERY mode table (a variable at a '+' place, also inside a function "
+            "application, that no positive atom / equality / earlier output place TO THE LEFT can have given a value => rejected; a '-' "
+            "place holds a variable; without built-ins the extended model is the old one) and a complete block of 33 built-ins x every "
+            "combination of bound-left / bound-only-later / unbound / constant / wildcard arguments, positive and negated: verdict and "
+            "premise order vs the model with builtin.Predicates' table, accepted clauses evaluated and judged by an independent "
+            "property-level oracle on Go's output (no panic, no missing-value / binding-mode error, ground facts, result = declarative "
+            "reading).",
     "note": "Trusted: Coq kernel + vm_compute; hand-written models tied to the Go code by the differential check (sampled; "
             "exhaustive blocks in the thorough tier); fragment without declarations/modes/temporal/do-transforms; small integer data. "
-            "Known findings N61, N64, N65 are excluded from the generators and probed.",
+            "Known findings N61, N64, N65, N105-N108 are excluded from the generators and probed. Built-ins: the engine is not modelled "
+            "(evaluation judged by a Python oracle on Go's output, labelled as such in the evidence); the mode table of the model is a "
+            "hand copy tied to builtin.Predicates by the differential run.",
 }
